@@ -5,8 +5,14 @@ exact-rational / brute-force oracle for
   sutils.ppos, standard_normal, lhs, pareto_front,
   boxplot.boxplot_stats, Boxplot(...).stats (with and without `by`),
   Violin(...).stats / kde_x / kde_y.
+
+The statement is about values (sizes, ranges, vectors, point sets, columns, grouping vectors): every
+entry point is also exercised with the same values held in other stored representations (vec_rep,
+mat_rep, frame_rep, scalar_rep) and inside histories of operations (run_history) where the caller
+keeps and overwrites the objects he got and passed.
 """
 import math
+import random
 from fractions import Fraction
 
 import numpy as np
@@ -152,6 +158,255 @@ def gen_coverages(rng):
 
 
 # ----------------------------------------------------------------------------
+# stored representations of the inputs.  The property speaks of sample sizes, ranges, vectors,
+# point sets, columns and grouping vectors - of VALUES; every way of holding the same values
+# that the entry point accepts must give the same answer.  A representation is named by a
+# string (+ a seed for the shuffles), so that a replay file rebuilds the same object.
+
+IDX_KINDS = ["range", "offset", "shuffled", "dup", "dates", "dates-desc", "dates-s", "dates-tz", "text", "float"]
+
+
+def index_of(pd, kind, n, seed):
+    """a pandas index of n labels: default, integers not 0..n-1 in order, duplicates, dates
+    (descending, unit s, time zone), text, floats"""
+    r = random.Random(seed)
+    if kind == "range":
+        return pd.RangeIndex(n)
+    if kind == "offset":
+        return pd.RangeIndex(7, 7 + n)
+    if kind == "shuffled":
+        p = list(range(n))
+        r.shuffle(p)
+        return pd.Index(p, dtype="int64")
+    if kind == "dup":
+        return pd.Index([r.randrange(max(1, (n + 1) // 2)) for _ in range(n)], dtype="int64")
+    if kind == "dates":
+        return pd.date_range("2001-01-01", periods=n, freq="D")
+    if kind == "dates-desc":
+        return pd.date_range("2001-01-01", periods=n, freq="D")[::-1]
+    if kind == "dates-s":
+        return pd.date_range("1999-12-25", periods=n, freq="h").as_unit("s")
+    if kind == "dates-tz":
+        return pd.date_range("2001-03-20", periods=n, freq="D", tz="Australia/Sydney")
+    if kind == "text":
+        return pd.Index([f"s{r.randrange(1000):03d}-{i}" for i in range(n)], dtype=object)
+    if kind == "float":
+        return pd.Index([i + 0.5 for i in range(n)], dtype="float64")
+    raise ValueError(kind)
+
+
+REP_NEEDS = {"float32": "f32", "int64": "int", "int32": "int", "int-list": "int", "frame-f32": "f32",
+             "frame-int": "int", "np.float32": "f32", "np.int64": "int", "int": "int"}
+
+
+def fit_values(vals, needs):
+    """the nearest values that the representation holds exactly (float32 / integer storage)"""
+    if needs == "f32":
+        return [float(np.float32(v)) for v in vals]
+    if needs == "int":
+        return [float(max(-2 ** 31 + 1, min(2 ** 31 - 1, round(v)))) if isfin(v) else 0.0 for v in vals]
+    return [float(v) for v in vals]
+
+
+GARBAGE = -7777.0
+
+
+def vec_rep(pd, name, v, seed=0):
+    """the vector v (python floats) held as `name`"""
+    a = np.array(v, dtype=np.float64)
+    if name == "ndarray":
+        return a
+    if name == "list":
+        return [float(x) for x in v]
+    if name == "tuple":
+        return tuple(float(x) for x in v)
+    if name == "int-list":
+        return [int(x) for x in v]
+    if name == "float32":
+        return a.astype(np.float32)
+    if name == "int64":
+        return a.astype(np.int64)
+    if name == "int32":
+        return a.astype(np.int32)
+    if name == "big-endian":
+        return a.astype(">f8")
+    if name == "strided":           # every second element of a larger buffer
+        base = np.full(2 * len(v) + 1, GARBAGE)
+        base[1::2] = a
+        return base[1::2]
+    if name == "reversed":          # negative stride
+        return a[::-1].copy()[::-1]
+    if name == "readonly":
+        a.setflags(write=False)
+        return a
+    if name == "masked":            # masked array, nothing masked
+        return np.ma.array(a)
+    if name.startswith("series:"):
+        return pd.Series(a, index=index_of(pd, name[7:], len(v), seed))
+    if name.startswith("series-named:"):
+        return pd.Series(a, index=index_of(pd, name[13:], len(v), seed), name="obs")
+    raise ValueError(name)
+
+
+def mat_rep(name, data, ncol):
+    """the point set (list of rows) held as a 2-D numpy array of layout / dtype `name`"""
+    a = np.array(data, dtype=np.float64).reshape(len(data), ncol)
+    n = len(data)
+    if name == "C":
+        return a
+    if name == "F":
+        return np.asfortranarray(a)
+    if name == "transposed":        # view of a [ncol x nval] array
+        return np.ascontiguousarray(a.T).T
+    if name == "col-strided":
+        w = np.full((n, 2 * ncol + 1), GARBAGE)
+        w[:, 1::2] = a
+        return w[:, 1::2]
+    if name == "row-strided":
+        w = np.full((2 * n + 1, ncol), -GARBAGE)
+        w[1::2] = a
+        return w[1::2]
+    if name == "neg-strides":
+        return a[::-1, ::-1].copy()[::-1, ::-1]
+    if name == "float32":
+        return a.astype(np.float32)
+    if name == "int64":
+        return a.astype(np.int64)
+    if name == "big-endian":
+        return a.astype(">f8")
+    if name == "readonly":
+        a.setflags(write=False)
+        return a
+    if name == "masked":
+        return np.ma.array(a)
+    raise ValueError(name)
+
+
+MAT_REPS = ["F", "transposed", "col-strided", "row-strided", "neg-strides", "float32", "int64", "big-endian",
+            "readonly", "masked"]
+
+
+def frame_rep(pd, name, cols, seed=0):
+    """the columns (dict name -> list, equal lengths) held as `name`; returns (object given to the
+    library, label of each column in the library's output)"""
+    names = list(cols)
+    n = len(cols[names[0]])
+    A = np.empty((n, len(names)), dtype=np.float64)
+    for j, k in enumerate(names):
+        A[:, j] = cols[k]
+    if name == "frame":
+        return pd.DataFrame({k: np.array(cols[k], dtype=float) for k in names}), names
+    if name.startswith("frame:"):
+        df = pd.DataFrame({k: np.array(cols[k], dtype=float) for k in names})
+        df.index = index_of(pd, name[6:], n, seed)
+        return df, names
+    if name == "frame-intcols":     # integer column labels, not in order
+        labels = [(5 * j + 3) % 7 for j in range(len(names))]
+        return pd.DataFrame(A, columns=labels), labels
+    if name == "frame-F":
+        return pd.DataFrame(np.asfortranarray(A), columns=names), names
+    if name == "frame-f32":
+        return pd.DataFrame(A.astype(np.float32), columns=names), names
+    if name == "frame-int":
+        return pd.DataFrame(A.astype(np.int64), columns=names), names
+    if name == "frame-object":
+        return pd.DataFrame(A.astype(object), columns=names), names
+    if name == "dict-of-lists":
+        return {k: [float(x) for x in cols[k]] for k in names}, names
+    if name == "list-of-rows":
+        return A.tolist(), list(range(len(names)))
+    if name == "ndarray-C":
+        return np.ascontiguousarray(A), list(range(len(names)))
+    if name == "ndarray-F":
+        return np.asfortranarray(A), list(range(len(names)))
+    if name == "ndarray-strided":
+        w = np.full((2 * n + 1, 2 * len(names) + 1), GARBAGE)
+        w[1::2, 1::2] = A
+        return w[1::2, 1::2], list(range(len(names)))
+    if name == "ndarray-readonly":
+        A.setflags(write=False)
+        return A, list(range(len(names)))
+    if name.startswith("series:"):  # one column
+        return pd.Series(A[:, 0], index=index_of(pd, name[7:], n, seed), name=names[0]), names[:1]
+    if name == "ndarray-1d":        # one column
+        return A[:, 0].copy(), [0]
+    raise ValueError(name)
+
+
+FRAME_REPS = (["frame:" + k for k in IDX_KINDS[1:]] +
+              ["frame-intcols", "frame-F", "frame-f32", "frame-int", "frame-object", "dict-of-lists", "list-of-rows",
+               "ndarray-C", "ndarray-F", "ndarray-strided", "ndarray-readonly", "series:dates", "series:shuffled",
+               "ndarray-1d"])
+ONE_COLUMN_REPS = ("series:dates", "series:shuffled", "ndarray-1d")
+
+
+def scalar_rep(name, v):
+    """a number held as python / numpy scalar or 0-d array"""
+    if name == "float":
+        return float(v)
+    if name == "int":
+        return int(v)
+    if name == "np.float64":
+        return np.float64(v)
+    if name == "np.float32":
+        return np.float32(v)
+    if name == "np.int64":
+        return np.int64(v)
+    if name == "np.int32":
+        return np.int32(v)
+    if name == "np.int8":
+        return np.int8(v)
+    if name == "0d":
+        return np.array(float(v))
+    raise ValueError(name)
+
+
+def snapshot(obj):
+    """values (and labels) of a result object, detached from it"""
+    if isinstance(obj, dict):
+        return [str(k) for k in obj], np.array([obj[k] for k in obj], dtype=float)
+    if hasattr(obj, "to_numpy"):
+        lab = [str(x) for x in obj.index]
+        if hasattr(obj, "columns"):
+            lab += [str(x) for x in obj.columns]
+        return lab, np.array(obj.to_numpy(dtype=float, na_value=NAN), dtype=float, copy=True)
+    return None, np.array(obj, dtype=float, copy=True)
+
+
+def same_snapshot(a, b):
+    return a[0] == b[0] and a[1].shape == b[1].shape and bool(np.array_equal(a[1], b[1], equal_nan=True))
+
+
+def scribble(obj):
+    """overwrite an array / Series / frame in place (what a caller may do with an object he owns)"""
+    try:
+        if isinstance(obj, np.ndarray):
+            if not obj.flags.writeable or obj.size == 0:
+                return False
+            obj[...] = 7 if obj.dtype.kind in "iu" else GARBAGE
+            return True
+        if hasattr(obj, "iloc") and obj.size:
+            if hasattr(obj, "columns"):
+                obj.iloc[:, :] = GARBAGE
+            else:
+                obj.iloc[:] = GARBAGE
+            return True
+    except Exception:      # noqa: BLE001  (an object that cannot be written is left alone)
+        return False
+    return False
+
+
+# Holders that the documentation of an entry point does not name (it names arrays / Series / frames; lists
+# only for the bounds of lhs): the property does not promise that they are accepted, so a refusal is not
+# reported - an answer that is returned for them must still be the right one.
+UNDOCUMENTED_HOLDERS = {"list", "tuple", "int-list", "masked", "dict-of-lists", "list-of-rows"}
+
+
+def flat_exc(e):
+    return f"{type(e).__name__}: " + " ".join(str(e).split())[:120]
+
+
+# ----------------------------------------------------------------------------
 # observation of internal seams (library calls whose results are inputs of the model)
 
 class Patch:
@@ -199,8 +454,15 @@ def run(ctx):
                 "coordinates, both orientations; box plot: columns of 0..300 values (NaN/+-inf anywhere, ties, "
                 "constant), box coverage in [40,100), whiskers in (box,100], rejected coverages, `by` with 2..5 "
                 "categories of unequal size; violin: frames of 1..3 columns x 1..520 rows incl. odd row counts, "
-                "constant and non-finite columns; non-trivial = distinct (function, size class, tie/NaN class, "
-                "outcome) signature")
+                "constant and non-finite columns; stored representations of every input (same values held as "
+                "list / tuple / float32 / integer / big-endian / strided / reversed / read-only / masked arrays, "
+                "Fortran-order and transposed point sets, Series and frames with default, shuffled, duplicate, date "
+                "(unit s, time zone), text and float index, integer column labels, object / float32 / integer "
+                "blocks, dict of lists, list of rows, 2-D arrays, numpy scalars and 0-d arrays for sizes, constants, "
+                "orientation and coverages; the same object passed twice); histories of 4..25 operations on all "
+                "entry points in one process with returned and passed objects overwritten by the caller in "
+                "between (an answer returned stays what it was; the same call answers the same); non-trivial = "
+                "distinct (function, size class, tie/NaN class, outcome, representation) signature")
     ctx.trusted = cm.STD_TRUST + [
         "numpy.linspace and numpy.percentile (linear method) are modelled from their source and validated by "
         "dedicated correspondence cases (CLinspace, CPercentile)",
@@ -228,9 +490,21 @@ def run(ctx):
     terms, replays = [], []
     orc_fail = set()
 
+    # while a history (sequence of operations) runs: its steps so far; merged into every replay
+    ambient = {}
+    model_too = [True]     # False: the step goes through the oracle only (no case for the Coq model)
+
+    def in_history(replay):
+        if not ambient:
+            return replay
+        r = dict(replay, **ambient)
+        r["failing_call"] = replay.get("call")
+        r["call"] = "history"
+        return r
+
     def add(term, replay, sig):
-        terms.append(term)
-        replays.append(replay)
+        terms.append(term if model_too[0] else None)
+        replays.append(in_history(replay))
         ctx.count(sig)
         if len(terms) % 300 == 1:
             ctx.sample({k: (v[:8] if isinstance(v, list) else v) for k, v in replay.items()})
@@ -239,7 +513,7 @@ def run(ctx):
     def fail(idx, key, what, replay=None):
         if idx is not None:
             orc_fail.add(idx)
-        ctx.failure(key, replay if replay is not None else replays[idx], what)
+        ctx.failure(key, in_history(replay) if replay is not None else replays[idx], what)
 
     corpus = cm.load_corpus(PID)
     rp = None
@@ -252,47 +526,65 @@ def run(ctx):
         return rp is not None and rp.get("call") == call
 
     # ------------------------------------------------------------------ ppos
-    def do_ppos(nval, cst):
+    def do_ppos(nval, cst, nrep="int", crep="float"):
+        """nrep / crep: how the size and the constant are held (python / numpy scalar, 0-d array)"""
+        raw, exc = None, None
+        replay = {"call": "sutils.ppos", "nval": nval, "cst": cst, "nval_held_as": nrep, "cst_held_as": crep}
         try:
-            out = [float(x) for x in sutils.ppos(nval, cst)]
+            raw = sutils.ppos(scalar_rep(nrep, nval), scalar_rep(crep, cst))
+            out = [float(x) for x in raw]
         except ValueError:
             out = None
-        i = add(f"CPpos {cm.coq_z(nval)} {cm.coq_float(cst)} {cm.coq_option(out, fl)}",
-                {"call": "sutils.ppos", "nval": nval, "cst": cst, "impl": out},
-                ("ppos", min(nval, 4), cst in (0.0, 0.5), out is None))
+        except Exception as e:      # noqa: BLE001
+            out, exc = None, e
+        replay["impl"] = out
         inside = 0.0 <= cst <= 0.5
+        if exc is not None:
+            if inside:
+                fail(None, "C20/ppos/raises", f"ppos({nval}, {cst!r}) with the size held as {nrep} and the "
+                     f"constant as {crep} raised {flat_exc(exc)}", replay)
+            return None
+        i = add(f"CPpos {cm.coq_z(nval)} {cm.coq_float(cst)} {cm.coq_option(out, fl)}", replay,
+                ("ppos", min(nval, 4), cst in (0.0, 0.5), out is None, nrep, crep))
         if not inside:
-            return      # outside the property's quantifier: the correspondence alone covers the error path
+            return raw  # outside the property's quantifier: the correspondence alone covers the error path
         if out is None:
             fail(i, "C20/ppos/valid-constant-rejected", f"ppos({nval}, {cst!r}) raised")
-            return
+            return raw
         if len(out) != nval:
             fail(i, "C20/ppos/length", f"ppos({nval}, {cst!r}) has {len(out)} values")
-            return
+            return raw
         c = F(cst)
         for k, p in enumerate(out):
             want = (k + 1 - c) / (nval + 1 - 2 * c)
             if not close(p, want, 1e-12):
                 fail(i, "C20/ppos/formula", f"ppos({nval}, {cst!r})[{k}] = {p!r}, expected {float(want)!r}")
-                return
+                return raw
             if not 0.0 < p < 1.0:
                 fail(i, "C20/ppos/not-in-open-unit-interval", f"ppos({nval}, {cst!r})[{k}] = {p!r}")
-                return
+                return raw
             if k > 0 and not out[k - 1] < p:
                 fail(i, "C20/ppos/not-increasing", f"ppos({nval}, {cst!r})[{k - 1}..{k}] = {out[k - 1]!r}, {p!r}")
-                return
+                return raw
             if abs(p + out[nval - 1 - k] - 1.0) > 1e-12:
                 fail(i, "C20/ppos/not-symmetric", f"ppos({nval}, {cst!r}): p[{k}] + p[{nval - 1 - k}] != 1")
-                return
+                return raw
+        return raw
 
     if replay_is("sutils.ppos"):
-        do_ppos(int(rp["nval"]), float(rp["cst"]))
+        do_ppos(int(rp["nval"]), float(rp["cst"]), rp.get("nval_held_as", "int"), rp.get("cst_held_as", "float"))
     CSTS = [0.0, 0.5, 0.3, 0.375, 0.3175, 0.4, 0.25]
     for nval in list(range(0, 8)) + [rng.randint(8, ctx.scale(300, 2000)) for _ in range(ctx.scale(25, 200))]:
         for cst in rng.sample(CSTS, 3) + [rng.uniform(0, 0.5)]:
             do_ppos(nval, cst)
     for cst in [-0.1, 0.6, -1e-12, 0.5000000001, 5e-324, 0.49999999999999994]:
         do_ppos(rng.randint(1, 20), cst)
+    # size and constant held as numpy scalars / 0-d arrays / integers (values those types hold exactly)
+    for nrep in ["int", "np.int64", "np.int32", "np.int8"]:
+        for crep in ["float", "np.float64", "np.float32", "0d", "int"]:
+            cst = (0.0 if crep == "int" else
+                   rng.choice([0.0, 0.5, 0.25, 0.375, 0.125]) if crep == "np.float32" else rng.choice(CSTS))
+            do_ppos(rng.choice([0, 1, 2, 5, rng.randint(3, 100)]), cst, nrep, crep)
 
     # ------------------------------------------------------------------ standard_normal
     class NormProxy:
@@ -306,63 +598,89 @@ def run(ctx):
         def __getattr__(self, name):
             return getattr(self.real, name)
 
-    def do_snorm(x, cst, srt):
+    def do_snorm(x, cst, srt, xrep="ndarray", seed=0, twice=False):
+        """xrep: how the vector is held (vec_rep); twice: the same object is passed a second time and
+        the second answer is the one examined.  Returns the objects handed in and out."""
         proxy = NormProxy(sutils.norm)
+        xin = vec_rep(pd, xrep, x, seed)
+        replay = {"call": "sutils.standard_normal", "x": x, "cst": cst, "sorted": srt, "x_held_as": xrep,
+                  "rep_seed": seed, "same_object_passed_twice": twice}
+        hasnan = any(math.isnan(v) for v in x)
+        exc = None
+        raw = []
         try:
+            if twice:
+                sutils.standard_normal(xin, cst=cst, sorted=srt)
+                if not same_snapshot(snapshot(xin), snapshot(vec_rep(pd, xrep, x, seed))):
+                    ctx.notes["input_modified_by_call"] = ctx.notes.get("input_modified_by_call", 0) + 1
+                    return None     # the caller's vector was changed: what it holds now is another input
             with Patch(sutils, "norm", proxy):
-                unorm, ranks = sutils.standard_normal(np.array(x, dtype=float), cst=cst, sorted=srt)
+                unorm, ranks = sutils.standard_normal(xin, cst=cst, sorted=srt)
+            raw = [unorm, ranks]
             unorm = [float(v) for v in np.asarray(unorm)]
             ranks = [float(v) for v in np.asarray(ranks)]
             args = [float(v) for v in proxy.args[0]] if len(proxy.args) == 1 else None
         except ValueError:
             unorm = ranks = args = None
-        hasnan = any(math.isnan(v) for v in x)
-        if ranks is None:
-            exp = "None"
-        elif args is None:
-            return   # seam not observed (code no longer calls norm.ppf): oracle only
-        else:
-            exp = f"(Some ({fl(ranks)}, {fl(args)}))"
+        except Exception as e:      # noqa: BLE001
+            unorm = ranks = args = None
+            exc = e
+        replay.update(ranks=ranks, unorm=unorm)
+        if (exc is not None or ranks is None) and xrep in UNDOCUMENTED_HOLDERS and not hasnan:
+            ctx.notes["undocumented_holder_refused"] = ctx.notes.get("undocumented_holder_refused", 0) + 1
+            return None
+        if exc is not None:
+            if not hasnan:
+                fail(None, "C20/standard_normal/raises", f"standard_normal of a NaN-free vector held as {xrep} "
+                     f"raised {flat_exc(exc)}", replay)
+            return None
         nties = len(x) - len(set(x))
-        i = add(f"CSnorm {fl(x)} {cm.coq_float(cst)} {cm.coq_bool(srt)} {exp}",
-                {"call": "sutils.standard_normal", "x": x, "cst": cst, "sorted": srt, "ranks": ranks, "unorm": unorm},
-                ("snorm", min(len(x), 4), nties > 0, nties == len(x) - 1 and len(x) > 1, srt, ranks is None))
+        i = None
+        if ranks is None or args is not None:   # else: seam not observed (norm.ppf no longer called): oracle only
+            exp = "None" if ranks is None else f"(Some ({fl(ranks)}, {fl(args)}))"
+            i = add(f"CSnorm {fl(x)} {cm.coq_float(cst)} {cm.coq_bool(srt)} {exp}", replay,
+                    ("snorm", min(len(x), 4), nties > 0, nties == len(x) - 1 and len(x) > 1, srt, ranks is None,
+                     xrep, twice))
+        res = {"in": [xin], "out": raw}
         if hasnan:
-            return      # outside the quantifier (NaN-free vectors): correspondence only
+            return res  # outside the quantifier (NaN-free vectors): correspondence only
         if ranks is None:
-            fail(i, "C20/standard_normal/valid-data-rejected", "standard_normal raised on NaN-free data")
-            return
+            fail(i, "C20/standard_normal/valid-data-rejected", f"standard_normal raised on NaN-free data "
+                 f"(held as {xrep})", replay)
+            return res
         n = len(x)
         if len(unorm) != n or len(ranks) != n:
-            fail(i, "C20/standard_normal/length", "output length differs from input length")
-            return
+            fail(i, "C20/standard_normal/length", "output length differs from input length", replay)
+            return res
         # ranks are the data ranks (average method, zero based), independent exact computation
         if not srt:
             for k in range(n):
                 less = sum(1 for v in x if v < x[k])
                 eq = sum(1 for v in x if v == x[k])
                 want = Fraction(2 * less + eq + 1, 2) - 1
-                if F(ranks[k]) != want:
-                    fail(i, "C20/standard_normal/rank", f"rank[{k}] = {ranks[k]!r}, expected {float(want)!r}")
-                    return
+                if not isfin(ranks[k]) or F(ranks[k]) != want:
+                    fail(i, "C20/standard_normal/rank", f"rank[{k}] = {ranks[k]!r}, expected {float(want)!r}", replay)
+                    return res
         # scores: finite, and a strictly increasing function of the ranks
         if any(not isfin(u) for u in unorm):
-            fail(i, "C20/standard_normal/score-not-finite", f"non finite normal score for cst={cst!r}")
-            return
+            fail(i, "C20/standard_normal/score-not-finite", f"non finite normal score for cst={cst!r}", replay)
+            return res
         order = sorted(range(n), key=lambda k: ranks[k])
         for a, b in zip(order, order[1:]):
             if ranks[a] == ranks[b]:
                 if unorm[a] != unorm[b]:
                     fail(i, "C20/standard_normal/not-a-function-of-rank",
-                         f"equal ranks {ranks[a]!r} with scores {unorm[a]!r}, {unorm[b]!r}")
-                    return
+                         f"equal ranks {ranks[a]!r} with scores {unorm[a]!r}, {unorm[b]!r}", replay)
+                    return res
             elif not unorm[a] < unorm[b]:
                 fail(i, "C20/standard_normal/not-increasing-in-rank",
-                     f"ranks {ranks[a]!r} < {ranks[b]!r} but scores {unorm[a]!r}, {unorm[b]!r}")
-                return
+                     f"ranks {ranks[a]!r} < {ranks[b]!r} but scores {unorm[a]!r}, {unorm[b]!r}", replay)
+                return res
+        return res
 
     if replay_is("sutils.standard_normal"):
-        do_snorm([float(v) for v in rp["x"]], float(rp["cst"]), bool(rp["sorted"]))
+        do_snorm([float(v) for v in rp["x"]], float(rp["cst"]), bool(rp["sorted"]), rp.get("x_held_as", "ndarray"),
+                 int(rp.get("rep_seed", 0)), bool(rp.get("same_object_passed_twice")))
     for it in range(ctx.scale(70, 700)):
         n = rng.choice([0, 1, 2, 3, 4, rng.randint(0, 30), rng.randint(0, ctx.scale(300, 1500))])
         x = gen_values(rng, n)
@@ -372,6 +690,20 @@ def run(ctx):
         if rng.random() < 0.06 and n > 0:
             x[rng.randrange(n)] = NAN
         do_snorm(x, rng.choice([0.0, 0.0, 0.3, 0.375, 0.5, rng.uniform(0, 0.5)]), srt)
+    # the same NaN-free vectors held in other ways: sequences, other dtypes (values those dtypes hold exactly),
+    # views with strides, read-only, masked array without masked entry, pandas Series with any index
+    # (big-endian arrays are left out: pandas itself refuses to rank them)
+    SN_REPS = (["list", "tuple", "int-list", "float32", "int64", "int32", "strided", "reversed", "readonly", "masked"]
+               + ["series:" + k for k in IDX_KINDS] + ["series-named:dates"])
+    for it in range(ctx.scale(3, 12) * len(SN_REPS)):
+        xrep = SN_REPS[it % len(SN_REPS)]
+        n = rng.choice([0, 1, 2, 3, 5, 8, rng.randint(0, 40)])
+        x = fit_values(gen_values(rng, n), REP_NEEDS.get(xrep))
+        srt = rng.random() < 0.2
+        if srt:
+            x = sorted(x)
+        do_snorm(x, rng.choice([0.0, 0.3, 0.375, 0.5, rng.uniform(0, 0.5)]), srt, xrep, rng.randrange(10 ** 6),
+                 twice=rng.random() < 0.3)
 
     # ------------------------------------------------------------------ numpy.linspace
     for it in range(ctx.scale(40, 300)):
@@ -384,7 +716,14 @@ def run(ctx):
             ("linspace", min(num, 3), a == b))
 
     # ------------------------------------------------------------------ lhs
-    def do_lhs(n, pmin, pmax):
+    def bounds_rep(name, v, seed):
+        if name in ("float", "int", "np.float64", "np.int64", "0d"):     # one parameter: a number
+            return scalar_rep(name, v[0])
+        return vec_rep(pd, name, v, seed)
+
+    def do_lhs(n, pmin, pmax, reps=("ndarray", "ndarray"), seed=0, nrep="int", broadcast=False):
+        """reps: how the lower / upper bounds are held; nrep: how the sample size is held; broadcast: the
+        upper bounds are all equal and given once (the code repeats a single upper bound)"""
         rec = {"perm": [], "unif": []}
         operm, ounif = np.random.permutation, np.random.uniform
 
@@ -397,12 +736,17 @@ def run(ctx):
             r = ounif(*a, **k)
             rec["unif"].append([float(v) for v in np.atleast_1d(r)])
             return r
+        exc, smp = None, None
         try:
+            a_min = bounds_rep(reps[0], pmin, seed)
+            a_max = bounds_rep(reps[1], pmax[:1] if broadcast else pmax, seed + 1)
             with Patch(np.random, "permutation", perm), Patch(np.random, "uniform", unif):
-                smp = sutils.lhs(n, np.array(pmin), np.array(pmax))
+                smp = sutils.lhs(scalar_rep(nrep, n), a_min, a_max)
             cols = [[float(v) for v in smp[:, j]] for j in range(smp.shape[1])]
         except (ValueError, ZeroDivisionError):
             cols = None
+        except Exception as e:      # noqa: BLE001
+            cols, exc = None, e
         npar = len(pmin)
         if cols is not None and (len(rec["perm"]) != npar or len(rec["unif"]) != npar):
             observed = False
@@ -410,21 +754,35 @@ def run(ctx):
         else:
             observed = True
             kks, jits = rec["perm"], rec["unif"]
-        replay = {"call": "sutils.lhs", "nsamples": n, "pmin": pmin, "pmax": pmax, "impl_columns": cols}
+        replay = {"call": "sutils.lhs", "nsamples": n, "pmin": pmin, "pmax": pmax, "impl_columns": cols,
+                  "bounds_held_as": list(reps), "rep_seed": seed, "nsamples_held_as": nrep,
+                  "single_upper_bound_given": broadcast}
+        res = {"in": [], "out": [smp] if smp is not None else []}
+        valid = len(pmin) == len(pmax) and all(b > a for a, b in zip(pmin, pmax)) and n >= 1
+        if (exc is not None or cols is None) and valid and \
+                any(r == "masked" or r.startswith("series") for r in reps):
+            ctx.notes["undocumented_holder_refused"] = ctx.notes.get("undocumented_holder_refused", 0) + 1
+            return None
+        if exc is not None:
+            if valid and not broadcast:
+                fail(None, "C20/lhs/raises", f"lhs({n}, {pmin}, {pmax}) with the bounds held as {reps} raised "
+                     f"{flat_exc(exc)}", replay)
+            return None
+        if broadcast and cols is None:
+            return None     # repeating a single upper bound is not promised by the property
         i = None
         if observed:
             i = add(f"CLhs {cm.coq_z(n)} {fl(pmin)} {fl(pmax)} {zll(kks if cols is not None else [])} "
                     f"{fll(jits if cols is not None else [])} {cm.coq_option(cols, fll)}",
-                    replay, ("lhs", min(n, 3), npar, cols is None))
-        valid = len(pmin) == len(pmax) and all(b > a for a, b in zip(pmin, pmax)) and n >= 1
+                    replay, ("lhs", min(n, 3), npar, cols is None) + tuple(reps) + (nrep, broadcast))
         if not valid:
-            return      # outside the quantifier (pmin < pmax, n >= 1): correspondence only
+            return res  # outside the quantifier (pmin < pmax, n >= 1): correspondence only
         if cols is None:
-            fail(i, "C20/lhs/valid-input-rejected", f"lhs({n}, {pmin}, {pmax}) raised", replay)
-            return
+            fail(i, "C20/lhs/valid-input-rejected", f"lhs({n}, {pmin}, {pmax}) raised (bounds held as {reps})", replay)
+            return res
         if len(cols) != npar or any(len(c) != n for c in cols):
             fail(i, "C20/lhs/shape", "sample matrix is not nsamples x nparams", replay)
-            return
+            return res
         # exactly one point in each of the n equal strata of every range (exact rationals;
         # a point within 1e-9 stratum widths of a boundary may count for either side)
         for j in range(npar):
@@ -434,7 +792,7 @@ def run(ctx):
             for s in cols[j]:
                 if not isfin(s):
                     fail(i, "C20/lhs/not-finite", f"parameter {j}: sample {s!r}", replay)
-                    return
+                    return res
                 t = (F(s) - a) / du
                 k = math.floor(t)
                 fr = t - k
@@ -462,10 +820,13 @@ def run(ctx):
                 badk = sorted(k for k in set(cnt) | set(range(n)) if cnt.get(k, 0) != 1)[:5]
                 fail(i, "C20/lhs/stratum-count", f"parameter {j} of [{pmin[j]!r}, {pmax[j]!r}], n={n}: strata "
                      f"{badk} do not hold exactly one point", replay)
-                return
+                return res
+        return res
 
     if replay_is("sutils.lhs"):
-        do_lhs(int(rp["nsamples"]), [float(v) for v in rp["pmin"]], [float(v) for v in rp["pmax"]])
+        do_lhs(int(rp["nsamples"]), [float(v) for v in rp["pmin"]], [float(v) for v in rp["pmax"]],
+               tuple(rp.get("bounds_held_as", ("ndarray", "ndarray"))), int(rp.get("rep_seed", 0)),
+               rp.get("nsamples_held_as", "int"), bool(rp.get("single_upper_bound_given")))
     for it in range(ctx.scale(60, 600)):
         n = rng.choice([1, 1, 2, 3, rng.randint(1, 30), rng.randint(1, ctx.scale(300, 1200))])
         npar = rng.randint(1, 6)
@@ -484,6 +845,39 @@ def run(ctx):
         elif r < 0.07 and npar > 2:
             pmax = pmax[:-1]
         do_lhs(n, pmin, pmax)
+    # the same ranges held in other ways: lists / tuples of floats or integers, integer and float32 arrays (bounds
+    # those types hold exactly), big-endian, strided / reversed views, read-only, Series with any index, plain
+    # numbers for one parameter, the size as a numpy integer; one upper bound given for equal upper bounds.
+    # (float32 UPPER bounds are left out: see notes - the centres are then computed in float32)
+    LHS_REPS = ["list", "tuple", "int-list", "int64", "int32", "big-endian", "strided", "reversed", "readonly",
+                "series:shuffled", "series:dates", "series:text"]
+    for it in range(ctx.scale(4, 16) * len(LHS_REPS)):
+        r0 = LHS_REPS[it % len(LHS_REPS)]
+        r1 = r0 if rng.random() < 0.5 else rng.choice(LHS_REPS)
+        if rng.random() < 0.15:
+            r0 = "float32"
+        n = rng.choice([1, 2, 3, 10, rng.randint(1, 40)])
+        npar = rng.randint(1, 4)
+        bc = rng.random() < 0.15
+        if npar == 1 and rng.random() < 0.5:
+            r0, r1 = rng.choice(["float", "int", "np.float64", "np.int64", "0d"]), rng.choice(["float", "int", "0d"])
+        anyint = "int" in (REP_NEEDS.get(r0), REP_NEEDS.get(r1))
+        pmin, pmax = [], []
+        for _ in range(npar):
+            loc = rng.choice([0.0, -1.0, rng.gauss(0, 1), rng.gauss(0, 1e3), float(rng.randint(-50, 50))])
+            w = rng.choice([1.0, 2.0, 10 ** rng.uniform(-2, 4), rng.uniform(0.01, 100)])
+            if anyint:
+                loc, w = float(round(loc)), float(max(1, round(w)))
+            pmin.append(float(loc))
+            pmax.append(float(loc + w))
+        pmin = fit_values(pmin, REP_NEEDS.get(r0))
+        if bc:
+            top = max(pmin) + rng.choice([1.0, 3.0, float(rng.randint(1, 1000))])
+            pmax = [top] * npar
+        if any(b <= a for a, b in zip(pmin, pmax)):
+            continue
+        do_lhs(n, pmin, pmax, (r0, r1), rng.randrange(10 ** 6),
+               rng.choice(["int", "int", "np.int64", "np.int32"]), bc)
 
     # ------------------------------------------------------------------ pareto_front
     def o_dominated(data, o):
@@ -501,35 +895,61 @@ def run(ctx):
             out.append(dom)
         return out
 
-    def do_pareto(data, ncol, o):
-        arr = np.array(data, dtype=np.float64).reshape(len(data), ncol)
-        cm.mark({"call": "sutils.pareto_front", "data": data, "orientation": o})
-        out = [int(v) for v in sutils.pareto_front(arr, o)]
+    def do_pareto(data, ncol, o, mrep="C", orep="int", twice=False):
+        """mrep: layout / dtype of the array holding the points (mat_rep); orep: how the orientation is held;
+        twice: the same array object is passed a second time and the second answer is examined"""
+        arr = mat_rep(mrep, data, ncol)
+        replay = {"call": "sutils.pareto_front", "data": data, "ncol": ncol, "orientation": o,
+                  "array_held_as": mrep, "orientation_held_as": orep, "same_object_passed_twice": twice}
+        cm.mark(replay)
+        try:
+            if twice:
+                sutils.pareto_front(arr, scalar_rep(orep, o))
+                if not same_snapshot(snapshot(arr), snapshot(mat_rep(mrep, data, ncol))):
+                    ctx.notes["input_modified_by_call"] = ctx.notes.get("input_modified_by_call", 0) + 1
+                    return None     # the caller's array was changed: what it holds now is another point set
+            raw = sutils.pareto_front(arr, scalar_rep(orep, o))
+            out = [int(v) for v in raw]
+        except Exception as e:      # noqa: BLE001
+            if mrep in UNDOCUMENTED_HOLDERS:
+                ctx.notes["undocumented_holder_refused"] = ctx.notes.get("undocumented_holder_refused", 0) + 1
+                return None
+            fail(None, "C20/pareto_front/raises", f"pareto_front of {len(data)} points x {ncol} columns held as "
+                 f"{mrep} array (orientation {o} as {orep}) raised {flat_exc(e)}", replay)
+            return None
+        replay["impl"] = out
+        res = {"in": [arr], "out": [raw]}
         hasnan = any(math.isnan(v) for r in data for v in r)
-        i = add(f"CPareto {cm.coq_z(o)} {fll(data)} {cm.coq_zlist(out)}",
-                {"call": "sutils.pareto_front", "data": data, "ncol": ncol, "orientation": o, "impl": out},
-                ("pareto", min(len(data), 3), ncol, hasnan, o, min(sum(out), 2), len(set(map(tuple, data))) < len(data)))
+        i = add(f"CPareto {cm.coq_z(o)} {fll(data)} {cm.coq_zlist(out)}", replay,
+                ("pareto", min(len(data), 3), ncol, hasnan, o, min(sum(out), 2),
+                 len(set(map(tuple, data))) < len(data), mrep, orep, twice))
         want = o_dominated(data, o)
         if out != want:
             k = [a != b for a, b in zip(out, want)].index(True) if len(out) == len(want) else -1
             fail(i, "C20/pareto_front/flag-not-strict-dominance" + ("/nan-coordinates" if hasnan else ""),
-                 f"pareto_front(orientation={o}): point {k} flagged {out[k] if k >= 0 else '?'}, "
+                 f"pareto_front(orientation={o}, array held as {mrep}): point {k} flagged "
+                 f"{out[k] if k >= 0 else '?'}, "
                  f"strict dominance in every non-missing coordinate says {want[k] if k >= 0 else '?'}")
-            return
+            return res
         if not hasnan and len(data) > 0 and all(out):
             fail(i, "C20/pareto_front/empty-front", "every point of a complete data set is flagged as dominated")
-            return
+            return res
         neg = [[-v for v in r] for r in data]
-        rev = [int(v) for v in sutils.pareto_front(np.array(neg, dtype=np.float64).reshape(len(data), ncol), -o)]
+        try:
+            rev = [int(v) for v in sutils.pareto_front(mat_rep(mrep, neg, ncol), scalar_rep(orep, -o))]
+        except Exception as e:      # noqa: BLE001
+            fail(i, "C20/pareto_front/raises", f"pareto_front(-data, {-o}) (held as {mrep}) raised {flat_exc(e)}")
+            return res
         if rev != out:
             fail(i, "C20/pareto_front/orientation-not-negation",
                  f"pareto_front(data, {o}) != pareto_front(-data, {-o})")
+        return res
 
     if replay_is("sutils.pareto_front"):
-        do_pareto([[float(v) for v in r] for r in rp["data"]], int(rp["ncol"]), int(rp["orientation"]))
-    for it in range(ctx.scale(260, 2600)):
-        n = rng.choice([0, 1, 2, 3, rng.randint(0, 12), rng.randint(0, 60)])
-        ncol = rng.randint(1, 5)
+        do_pareto([[float(v) for v in r] for r in rp["data"]], int(rp["ncol"]), int(rp["orientation"]),
+                  rp.get("array_held_as", "C"), rp.get("orientation_held_as", "int"),
+                  bool(rp.get("same_object_passed_twice")))
+    def gen_points(n, ncol, nan_ok=True):
         kind = rng.random()
         if kind < 0.5:
             k = rng.choice([1, 2, 3, 6])
@@ -540,11 +960,32 @@ def run(ctx):
             base = [rng.gauss(0, 1) for _ in range(n)]
             sgn = [rng.choice([1, -1]) if rng.random() < 0.5 else 1 for _ in range(ncol)]
             data = [[s * b + rng.choice([0.0, 0.0, rng.gauss(0, 0.3)]) for s in sgn] for b in base]
-        pn = rng.choice([0.0, 0.0, 0.05, 0.3, 0.7])
+        pn = rng.choice([0.0, 0.0, 0.05, 0.3, 0.7]) if nan_ok else 0.0
         data = [[NAN if rng.random() < pn else v for v in r] for r in data]
         if rng.random() < 0.1 and n > 1:
             data[rng.randrange(n)] = list(data[rng.randrange(n)])
-        do_pareto(data, ncol, rng.choice([1, -1]))
+        return data
+
+    for it in range(ctx.scale(260, 2600)):
+        n = rng.choice([0, 1, 2, 3, rng.randint(0, 12), rng.randint(0, 60)])
+        ncol = rng.randint(1, 5)
+        do_pareto(gen_points(n, ncol), ncol, rng.choice([1, -1]))
+    # the same point sets held in other ways: Fortran order, transposed / strided / negative-stride views, float32
+    # and integer arrays (coordinates those types hold exactly), big-endian, read-only, masked array without
+    # masked entry; the orientation as numpy integer or float
+    for it in range(ctx.scale(6, 24) * len(MAT_REPS)):
+        mrep = MAT_REPS[it % len(MAT_REPS)]
+        n = rng.choice([0, 1, 2, 3, rng.randint(0, 12), rng.randint(0, 40)])
+        ncol = rng.randint(1, 5)
+        needs = REP_NEEDS.get(mrep)
+        data = gen_points(n, ncol, nan_ok=needs != "int")
+        if needs == "int":
+            data = [[float(round(3 * v)) for v in r] for r in data]
+        elif needs == "f32":
+            data = [fit_values(r, "f32") for r in data]
+        do_pareto(data, ncol, rng.choice([1, -1]), mrep,
+                  rng.choice(["int", "int", "np.int64", "np.int32", "np.int8", "float", "np.float64"]),
+                  twice=rng.random() < 0.3)
 
     # ------------------------------------------------------------------ numpy.percentile
     for it in range(ctx.scale(150, 1500)):
@@ -605,31 +1046,58 @@ def run(ctx):
         return (min(len(vals), 5), min(len(fin), 5), len(fin) < len(vals), len(set(fin)) < len(fin),
                 len(set(fin)) == 1 and len(fin) > 1)
 
-    def do_box(cols, box, wh):
-        """cols: dict name -> list (same length >= 1): Boxplot(DataFrame).stats and boxplot_stats"""
+    def do_box(cols, box, wh, frep="frame", seed=0, crep="float", twice=False):
+        """cols: dict name -> list (same length >= 1): Boxplot(DataFrame).stats and boxplot_stats.
+        frep: how the columns are held (frame_rep); crep: how the two coverages are held; twice: a second
+        Boxplot is built from the same object and the second one is examined"""
         valid = box >= 40.0 and wh > box
-        df = pd.DataFrame({k: np.array(v, dtype=float) for k, v in cols.items()})
+        df, keys = frame_rep(pd, frep, cols, seed)
+        key_of = dict(zip(cols, keys))
+        held = {"columns": cols, "columns_held_as": frep, "rep_seed": seed, "coverages_held_as": crep,
+                "same_object_passed_twice": twice}
+        bp, exc = None, None
         try:
-            bp = hbox.Boxplot(df, box_coverage=box, whiskers_coverage=wh)
+            if twice:
+                hbox.Boxplot(df, box_coverage=scalar_rep(crep, box), whiskers_coverage=scalar_rep(crep, wh))
+                if not same_snapshot(snapshot(frame_rep(pd, frep, cols, seed)[0]), snapshot(df)):
+                    ctx.notes["input_modified_by_call"] = ctx.notes.get("input_modified_by_call", 0) + 1
+                    return None
+            bp = hbox.Boxplot(df, box_coverage=scalar_rep(crep, box), whiskers_coverage=scalar_rep(crep, wh))
             stats = bp.stats
         except hbox.BoxplotError:
             stats = None
+        except Exception as e:      # noqa: BLE001
+            stats, exc = None, e
+        if (exc is not None or stats is None) and valid and frep in UNDOCUMENTED_HOLDERS:
+            ctx.notes["undocumented_holder_refused"] = ctx.notes.get("undocumented_holder_refused", 0) + 1
+            return None
+        if exc is not None:
+            if valid:
+                fail(None, "C20/boxplot/raises", f"Boxplot of {len(cols)} column(s) held as {frep} (coverages "
+                     f"{box}, {wh} as {crep}) raised {flat_exc(exc)}",
+                     dict(held, call="Boxplot(DataFrame).stats", box_coverage=box, whiskers_coverage=wh))
+            return None
         levels = None
         if stats is not None:
             b1, b2 = hbox.compute_percentiles(box)
             w1, w2 = hbox.compute_percentiles(wh)
             levels = [w1, b1, 50, b2, w2]
+        res = {"in": [df], "out": [], "reread": (lambda: [bp.stats]) if bp is not None else None}
         for name, vals in cols.items():
-            replay = {"call": "Boxplot(DataFrame).stats", "column": vals, "box_coverage": box,
-                      "whiskers_coverage": wh}
+            replay = dict(held, call="Boxplot(DataFrame).stats", column=vals, box_coverage=box,
+                          whiskers_coverage=wh)
             st = None
             if stats is not None:
-                st = read_stats(stats[name], levels)
+                if key_of[name] not in stats.columns:
+                    fail(None, "C20/boxplot/missing-column", f"no statistics for column {key_of[name]!r} "
+                         f"(columns held as {frep}): {list(stats.columns)}", replay)
+                    continue
+                st = read_stats(stats[key_of[name]], levels)
                 if st is None:
                     continue      # duplicate labels: outside the generator's intent
                 replay["impl"] = st
             i = add(f"CBox {fl(vals)} {cm.coq_float(box)} {cm.coq_float(wh)} {cm.coq_option(st, fstats_term)}",
-                    replay, ("box",) + sig_col(vals) + (stats is None,))
+                    replay, ("box",) + sig_col(vals) + (stats is None, frep, crep, twice))
             if not valid:
                 continue    # outside the quantifier (40 <= box < whiskers): correspondence only
             if stats is None:
@@ -641,6 +1109,7 @@ def run(ctx):
             if alone is not None and not same_stats(alone, st):
                 fail(i, "C20/boxplot/column-differs-from-function",
                      f"Boxplot(...).stats column {st} != boxplot_stats(column) {alone}", replay)
+        return res
 
     def same_stats(a, b):
         def eq(x, y, tol=0.0):
@@ -652,7 +1121,10 @@ def run(ctx):
                 and eq(a["max"], b["max"]) and eq(a["min"], b["min"]) and eq(a["mean"], b["mean"], 1e-12 * sc))
 
     if replay_is("Boxplot(DataFrame).stats") and len(rp["column"]) > 0:
-        do_box({"c0": [float(v) for v in rp["column"]]}, float(rp["box_coverage"]), float(rp["whiskers_coverage"]))
+        do_box({k: [float(v) for v in vs] for k, vs in rp.get("columns", {"c0": rp["column"]}).items()},
+               float(rp["box_coverage"]), float(rp["whiskers_coverage"]), rp.get("columns_held_as", "frame"),
+               int(rp.get("rep_seed", 0)), rp.get("coverages_held_as", "float"),
+               bool(rp.get("same_object_passed_twice")))
     maxlen = ctx.scale(300, 1200)
     for it in range(ctx.scale(130, 1300)):
         n = max(1, gen_len(rng, maxlen))
@@ -665,26 +1137,116 @@ def run(ctx):
         elif r < 0.08:
             wh = rng.choice([box, box - 1.0, box - 1e-9])
         do_box(cols, box, wh)
+    # the same columns held in other ways: frames with any index (integers out of order, duplicates, dates with
+    # unit / time zone, text), integer column labels, Fortran-order / float32 / integer / object blocks, dict of
+    # lists, list of rows, 2-D arrays (C / Fortran order, strided view, read-only), one column as Series or 1-D
+    # array; the coverages as integers or numpy scalars
+    for it in range(ctx.scale(3, 12) * len(FRAME_REPS)):
+        frep = FRAME_REPS[it % len(FRAME_REPS)]
+        n = max(1, rng.choice([1, 3, 4, 5, 8, rng.randint(1, 40), rng.randint(1, 40)]))
+        ncols = 1 if frep in ONE_COLUMN_REPS else rng.choice([1, 2, 3])
+        needs = REP_NEEDS.get(frep)
+        cols = {}
+        for k in range(ncols):
+            v = gen_values(rng, n)
+            cols[f"c{k}"] = fit_values(v, needs) if needs == "int" else fit_values(add_nonfinite(rng, v), needs)
+        crep = rng.choice(["float", "float", "int", "np.float64", "np.int64", "np.float32"])
+        if crep == "float":
+            box, wh = gen_coverages(rng)
+        else:       # coverages that integers and float32 hold exactly
+            box = float(rng.choice([40, 50, 50, 60, 75, 80]))
+            wh = float(rng.choice([90, 90, 95, 99, 100]))
+        do_box(cols, box, wh, frep, rng.randrange(10 ** 6), crep, twice=rng.random() < 0.25)
     # the function alone on empty / tiny arrays
+    def do_boxfn(vals, box=50.0, wh=90.0, vrep="ndarray", seed=0):
+        """boxplot_stats(column held as vrep, box, wh)"""
+        xin = vec_rep(pd, vrep, vals, seed)
+        replay = {"call": "boxplot_stats", "column": vals, "box_coverage": box, "whiskers_coverage": wh,
+                  "column_held_as": vrep, "rep_seed": seed}
+        try:
+            raw = hbox.boxplot_stats(xin, box, wh)
+            b1, b2 = hbox.compute_percentiles(box)
+            w1, w2 = hbox.compute_percentiles(wh)
+            st = read_stats(raw, [w1, b1, 50, b2, w2])
+        except Exception as e:      # noqa: BLE001
+            fail(None, "C20/boxplot/function-raises", f"boxplot_stats of {len(vals)} values held as {vrep} raised "
+                 f"{flat_exc(e)}", replay)
+            return None
+        if st is None:
+            return None
+        replay["impl"] = st
+        i = add(f"CBox {fl(vals)} {cm.coq_float(box)} {cm.coq_float(wh)} (Some {fstats_term(st)})",
+                replay, ("boxfn",) + sig_col(vals) + (vrep,))
+        o_boxstats(i, vals, box, wh, st, "boxplot", replay)
+        return {"in": [xin], "out": [raw]}
+
+    if replay_is("boxplot_stats"):
+        do_boxfn([float(v) for v in rp["column"]], float(rp["box_coverage"]), float(rp["whiskers_coverage"]),
+                 rp.get("column_held_as", "ndarray"), int(rp.get("rep_seed", 0)))
     for vals in [[], [NAN], [INF], [1.0], [1.0, 2.0, 3.0], [1.0, 2.0, 3.0, NAN, INF, -INF]]:
-        st = read_stats(hbox.boxplot_stats(np.array(vals, dtype=float), 50.0, 90.0), [5.0, 25.0, 50, 75.0, 95.0])
-        replay = {"call": "boxplot_stats", "column": vals, "box_coverage": 50.0, "whiskers_coverage": 90.0, "impl": st}
-        i = add(f"CBox {fl(vals)} {cm.coq_float(50.0)} {cm.coq_float(90.0)} (Some {fstats_term(st)})",
-                replay, ("boxfn",) + sig_col(vals))
-        o_boxstats(i, vals, 50.0, 90.0, st, "boxplot", replay)
+        do_boxfn(vals)
+    # the function on a column held as integer array, strided / reversed view, read-only array, Series with any
+    # index (what DataFrame.apply and groupby.apply hand to it, and what a caller may hand to it)
+    FN_REPS = ["int64", "int32", "strided", "reversed", "readonly"] + ["series:" + k for k in IDX_KINDS]
+    for it in range(ctx.scale(2, 8) * len(FN_REPS)):
+        vrep = FN_REPS[it % len(FN_REPS)]
+        v = gen_values(rng, rng.choice([0, 1, 3, 4, 5, 9, rng.randint(0, 40)]))
+        v = fit_values(v, "int") if REP_NEEDS.get(vrep) == "int" else add_nonfinite(rng, v)
+        box, wh = gen_coverages(rng)
+        do_boxfn(v, box, wh, vrep, rng.randrange(10 ** 6))
 
     # ------------------------------------------------------------------ box plot with `by`
-    def do_boxby(by, vals, box, wh, aslabels):
+    def by_rep(name, labels, index):
+        """the grouping vector held as array / list / tuple / int32 array / Series (named or not) that carries
+        the index of the data (the default index when the data have none)"""
+        if name == "ndarray":
+            return np.array(labels)
+        if name == "list":
+            return list(labels)
+        if name == "tuple":
+            return tuple(labels)
+        if name == "int32":
+            return np.array(labels).astype(np.int32)
+        if name == "series":
+            return pd.Series(np.array(labels), index=index)
+        if name == "series-named":
+            return pd.Series(np.array(labels), index=index, name="month")
+        raise ValueError(name)
+
+    def do_boxby(by, vals, box, wh, aslabels, drep="ndarray", brep="ndarray", seed=0, twice=False):
+        """drep: how the data vector is held (vec_rep); brep: how the grouping vector is held (by_rep)"""
         cats = sorted(set(by))
         labels = [f"g{c:02d}" for c in by] if aslabels else by
         replay = {"call": "Boxplot(data, by).stats", "by": by, "data": vals, "box_coverage": box,
-                  "whiskers_coverage": wh, "string_labels": aslabels}
+                  "whiskers_coverage": wh, "string_labels": aslabels, "data_held_as": drep, "by_held_as": brep,
+                  "rep_seed": seed, "same_objects_passed_twice": twice}
+        valid = len(cats) >= 2 and box >= 40.0 and wh > box
+        bp, exc = None, None
         try:
-            bp = hbox.Boxplot(np.array(vals, dtype=float), by=np.array(labels), box_coverage=box,
-                              whiskers_coverage=wh)
+            din = vec_rep(pd, drep, vals, seed)
+            bin_ = by_rep(brep, labels, din.index if hasattr(din, "index") and not isinstance(din, (list, tuple))
+                          else None)
+            if twice:
+                hbox.Boxplot(din, by=bin_, box_coverage=box, whiskers_coverage=wh)
+                if not same_snapshot(snapshot(din), snapshot(vec_rep(pd, drep, vals, seed))) or \
+                        [str(v) for v in np.asarray(bin_)] != [str(v) for v in labels]:
+                    ctx.notes["input_modified_by_call"] = ctx.notes.get("input_modified_by_call", 0) + 1
+                    return None
+            bp = hbox.Boxplot(din, by=bin_, box_coverage=box, whiskers_coverage=wh)
             stats = bp.stats
         except hbox.BoxplotError:
             stats = None
+        except Exception as e:      # noqa: BLE001
+            stats, exc = None, e
+        if (exc is not None or stats is None) and valid and (drep in UNDOCUMENTED_HOLDERS or brep in UNDOCUMENTED_HOLDERS):
+            ctx.notes["undocumented_holder_refused"] = ctx.notes.get("undocumented_holder_refused", 0) + 1
+            return None
+        if exc is not None:
+            if valid:
+                fail(None, "C20/boxplot-by/raises", f"Boxplot(data held as {drep}, by held as {brep}) with "
+                     f"{len(cats)} categories raised {flat_exc(exc)}", replay)
+            return None
+        res = {"in": [din], "out": [], "reread": (lambda: [bp.stats]) if bp is not None else None}
         exp = None
         if stats is not None:
             b1, b2 = hbox.compute_percentiles(box)
@@ -698,24 +1260,25 @@ def run(ctx):
                     break
                 st = read_stats(stats[key], levels)
                 if st is None:
-                    return
+                    return res
                 exp.append((c, st))
             replay["impl"] = exp
         if exp == "missing-column":
-            fail(None, "C20/boxplot-by/missing-group", f"category {c} has no column in Boxplot(data, by).stats", replay)
-            return
+            fail(None, "C20/boxplot-by/missing-group", f"category {c} has no column in Boxplot(data, by).stats "
+                 f"(data held as {drep}, by as {brep})", replay)
+            return res
         term = cm.coq_option(exp, lambda e: "[" + "; ".join(f"({cm.coq_z(c)}, {fstats_term(st)})" for c, st in e) + "]")
         i = add(f"CBoxBy {cm.coq_zlist(by)} {fl(vals)} {cm.coq_float(box)} {cm.coq_float(wh)} {term}",
-                replay, ("boxby", len(cats), min(len(vals), 5), any(not isfin(v) for v in vals), stats is None))
-        valid = len(cats) >= 2 and box >= 40.0 and wh > box
+                replay, ("boxby", len(cats), min(len(vals), 5), any(not isfin(v) for v in vals), stats is None,
+                         drep, brep, twice))
         if not valid:
-            return      # outside the quantifier (2+ categories, 40 <= box < whiskers): correspondence only
+            return res  # outside the quantifier (2+ categories, 40 <= box < whiskers): correspondence only
         if stats is None:
             fail(i, "C20/boxplot-by/valid-arguments-rejected", f"{len(cats)} categories, box={box}, whiskers={wh}")
-            return
+            return res
         if len(stats.columns) != len(cats):
             fail(i, "C20/boxplot-by/extra-group", f"columns {list(stats.columns)} for categories {cats}")
-            return
+            return res
         for c, st in exp:
             sub = [v for b, v in zip(by, vals) if b == c]
             o_boxstats(i, sub, box, wh, st, "boxplot-by", replay)
@@ -723,32 +1286,60 @@ def run(ctx):
             if alone is not None and not same_stats(alone, st):
                 fail(i, "C20/boxplot-by/group-differs-from-group-alone",
                      f"category {c}: grouped {st} != boxplot_stats(group alone) {alone}", replay)
-                return
+                return res
+        return res
 
     if replay_is("Boxplot(data, by).stats"):
         do_boxby([int(v) for v in rp["by"]], [float(v) for v in rp["data"]], float(rp["box_coverage"]),
-                 float(rp["whiskers_coverage"]), bool(rp.get("string_labels")))
-    for it in range(ctx.scale(70, 700)):
+                 float(rp["whiskers_coverage"]), bool(rp.get("string_labels")), rp.get("data_held_as", "ndarray"),
+                 rp.get("by_held_as", "ndarray"), int(rp.get("rep_seed", 0)),
+                 bool(rp.get("same_objects_passed_twice")))
+    def gen_by(maxsize, one_ok=True):
         ncat = rng.choice([2, 2, 3, 4, 5])
-        if rng.random() < 0.05:
+        if one_ok and rng.random() < 0.05:
             ncat = 1
-        sizes = [rng.choice([1, 2, 3, 4, 5, rng.randint(1, 30), rng.randint(1, ctx.scale(120, 500))]) for _ in range(ncat)]
+        sizes = [rng.choice([1, 2, 3, 4, 5, rng.randint(1, 30), rng.randint(1, maxsize)]) for _ in range(ncat)]
         if ncat > 1 and len(set(sizes)) == 1:
             sizes[0] += 1 + rng.randint(0, 5)
         ids = rng.sample(range(0, 12), ncat)
         by = [c for c, s in zip(ids, sizes) for _ in range(s)]
         rng.shuffle(by)
+        return by
+
+    for it in range(ctx.scale(70, 700)):
+        by = gen_by(ctx.scale(120, 500))
         vals = add_nonfinite(rng, gen_values(rng, len(by)))
         box, wh = gen_coverages(rng)
         if rng.random() < 0.04:
             box = 35.0
         do_boxby(by, vals, box, wh, rng.random() < 0.3)
+    # the same data and grouping vectors held in other ways.  Data: list / tuple / float32 / integer / strided /
+    # reversed / read-only arrays, Series with any index; grouping vector: array, list, tuple, int32, Series (named
+    # or not).  When the data are a Series with an index of their own, the grouping vector is a Series with the
+    # same index (the documented use: two columns of one frame); a vector without index is then positional only
+    # with the default index, so that combination is not generated.
+    BY_DATA_REPS = (["list", "tuple", "float32", "int64", "strided", "reversed", "readonly", "series-named:dates"]
+                    + ["series:" + k for k in IDX_KINDS])
+    for it in range(ctx.scale(3, 12) * len(BY_DATA_REPS)):
+        drep = BY_DATA_REPS[it % len(BY_DATA_REPS)]
+        by = gen_by(25, one_ok=False)
+        needs = REP_NEEDS.get(drep)
+        v = gen_values(rng, len(by))
+        vals = fit_values(v, "int") if needs == "int" else fit_values(add_nonfinite(rng, v), needs)
+        aslabels = rng.random() < 0.3
+        own_index = drep.startswith("series") and not drep.endswith(":range")
+        brep = rng.choice(["series", "series-named"] if own_index else
+                          ["ndarray", "list", "tuple", "series", "series-named"] + ([] if aslabels else ["int32"]))
+        box, wh = gen_coverages(rng)
+        do_boxby(by, vals, box, wh, aslabels, drep, brep, rng.randrange(10 ** 6), twice=rng.random() < 0.25)
 
     # ------------------------------------------------------------------ violin
-    def do_violin(cols):
+    def do_violin(cols, frep="frame", seed=0, twice=False):
+        """frep: how the columns are held (frame_rep); twice: a second Violin is built from the same object"""
         names = list(cols)
         nrows = len(cols[names[0]])
-        df = pd.DataFrame({k: np.array(v, dtype=float) for k, v in cols.items()})
+        df, keys = frame_rep(pd, frep, cols, seed)
+        key_of = dict(zip(names, keys))
         events = []
         okde, ounif = hvio.gaussian_kde, np.random.uniform
 
@@ -767,15 +1358,25 @@ def run(ctx):
             r = ounif(*a, **k)
             events.append(["unif", [float(v) for v in np.atleast_1d(r)]])
             return r
-        replay = {"call": "Violin(DataFrame)", "columns": cols}
+        replay = {"call": "Violin(DataFrame)", "columns": cols, "columns_held_as": frep, "rep_seed": seed,
+                  "same_object_passed_twice": twice}
+        held = {"columns_held_as": frep, "rep_seed": seed, "same_object_passed_twice": twice}
         err = None
         try:
+            if twice:
+                hvio.Violin(df)
+                if not same_snapshot(snapshot(frame_rep(pd, frep, cols, seed)[0]), snapshot(df)):
+                    ctx.notes["input_modified_by_call"] = ctx.notes.get("input_modified_by_call", 0) + 1
+                    return None
             with Patch(hvio, "gaussian_kde", KdeProxy), Patch(np.random, "uniform", unif):
                 vl = hvio.Violin(df)
                 stats, kx, ky = vl.stats, vl.kde_x, vl.kde_y
         except Exception as e:      # any exception: the summaries are not returned
             err = e
         fins = {k: [v for v in cols[k] if isfin(v)] for k in names}
+        if err is not None and frep in UNDOCUMENTED_HOLDERS:
+            ctx.notes["undocumented_holder_refused"] = ctx.notes.get("undocumented_holder_refused", 0) + 1
+            return None
         if err is not None:
             consts = [k for k in names if len(fins[k]) > 2 and len(set(fins[k])) == 1]
             npts = max(100, min(500, nrows))
@@ -787,8 +1388,9 @@ def run(ctx):
                 key = "C20/violin/raises"
             msg = " ".join(str(err).split())[:100]
             fail(None, key, f"Violin raised {type(err).__name__}: {msg} "
-                 f"({nrows} rows; constant columns: {consts})", replay)
-            return
+                 f"({nrows} rows; constant columns: {consts}; columns held as {frep})", replay)
+            return None
+        res = {"in": [df], "out": [], "reread": lambda: [vl.stats, vl.kde_x, vl.kde_y]}
         # split the recorded events per column with more than 2 finite values
         segs, cur = [], None
         for ev in events:
@@ -804,12 +1406,15 @@ def run(ctx):
         rows = ["Q0", "Q25", "median", "Q75", "Q100"]
         for k in names:
             vals, fin = cols[k], fins[k]
-            rp = {"call": "Violin(DataFrame)", "column": vals, "nrows": nrows}
+            rp = dict(held, call="Violin(DataFrame)", column=vals, nrows=nrows)
+            if len(names) > 1 or frep != "frame":
+                rp["columns"] = cols
             try:
-                st = [float(stats.loc[r, k]) for r in rows]
+                st = [float(stats.loc[r, key_of[k]]) for r in rows]
             except KeyError:
-                fail(None, "C20/violin/stats-layout", f"rows {list(stats.index)}", rp)
-                return
+                fail(None, "C20/violin/stats-layout", f"rows {list(stats.index)}, columns {list(stats.columns)} "
+                     f"(columns held as {frep})", rp)
+                return res
             rp["impl_stats"] = st
             nonfin = len(fin) < len(vals)
             hasinf = any(math.isinf(v) for v in vals)
@@ -834,8 +1439,8 @@ def run(ctx):
                     if any(not a <= b for a, b in zip(st, st[1:])):
                         fail(i, "C20/violin/not-ordered", f"quantiles not in non-decreasing order: {st}")
             # density profile
-            x = [float(v) for v in kx[k].values]
-            y = [float(v) for v in ky[k].values]
+            x = [float(v) for v in kx[key_of[k]].values]
+            y = [float(v) for v in ky[key_of[k]].values]
             has = not all(math.isnan(v) for v in x)
             seg = seg_of.get(k)
             if k in elig and seg is not None and (seg["u"] is not None or not seg["ok"]):
@@ -871,12 +1476,14 @@ def run(ctx):
             lo, hi = min(fin) - 1.0000001e-6, max(fin) + 1.0000001e-6
             if any(not a <= b for a, b in zip(x, x[1:])) or x[0] < lo or x[-1] > hi:
                 fail(j, "C20/violin/abscissae", f"kde_x not sorted within the data range [{min(fin)!r}, {max(fin)!r}]")
+        return res
 
     if replay_is("Violin(DataFrame)"):
+        vrep = (rp.get("columns_held_as", "frame"), int(rp.get("rep_seed", 0)), bool(rp.get("same_object_passed_twice")))
         if "columns" in rp:
-            do_violin({k: [float(v) for v in vs] for k, vs in rp["columns"].items()})
+            do_violin({k: [float(v) for v in vs] for k, vs in rp["columns"].items()}, *vrep)
         elif "column" in rp:
-            do_violin({"v0": [float(v) for v in rp["column"]]})
+            do_violin({"v0": [float(v) for v in rp["column"]]}, *vrep)
     # corpus: earlier failures, replayed first
     for case in corpus:
         if case.get("call") == "violin":
@@ -896,9 +1503,184 @@ def run(ctx):
             cols[f"v{k}"] = add_nonfinite(rng, v) if rng.random() < 0.6 else v
         do_violin(cols)
 
+    def violin_column(nrows, needs=None):
+        """a column inside the generator restrictions of the violin (see notes), or None"""
+        v = fit_values(gen_values(rng, nrows), needs)
+        if needs != "int" and rng.random() < 0.6:
+            v = add_nonfinite(rng, v)
+        fin = [z for z in v if isfin(z)]
+        if len(set(fin)) > 1 and (max(fin) - min(fin)) < 1e-2 * scale_of(fin):
+            return None
+        return v
+
+    # the same columns held in other ways (as for the box plot)
+    for it in range(ctx.scale(2, 8) * len(FRAME_REPS)):
+        frep = FRAME_REPS[it % len(FRAME_REPS)]
+        nrows = rng.choice([1, 3, 4, 5, 9, rng.randint(1, 40), rng.randint(80, 130)])
+        ncols = 1 if frep in ONE_COLUMN_REPS else rng.choice([1, 2])
+        cols = {f"v{k}": violin_column(nrows, REP_NEEDS.get(frep)) for k in range(ncols)}
+        if any(v is None for v in cols.values()):
+            continue
+        do_violin(cols, frep, rng.randrange(10 ** 6), twice=rng.random() < 0.25)
+
+    # ------------------------------------------------------------------ histories
+    # One process, a sequence of operations on the public entry points: what a call returns satisfies the
+    # statement whatever was called before (each step goes through the oracle and the model above), and an
+    # answer once returned stays what it was: it is not changed by later calls, by the caller overwriting ANOTHER
+    # returned object or overwriting the arrays he passed in; an object (Boxplot, Violin) keeps reporting the
+    # same summaries while other objects are built.
+    def run_step(st):
+        op = st["op"]
+        if op == "ppos":
+            raw = do_ppos(st["nval"], st["cst"])
+            return {"in": [], "out": [raw] if raw is not None else []}
+        if op == "standard_normal":
+            return do_snorm(st["x"], st["cst"], st["sorted"], st.get("rep", "ndarray"), st.get("seed", 0))
+        if op == "lhs":
+            return do_lhs(st["nsamples"], st["pmin"], st["pmax"])
+        if op == "pareto_front":
+            return do_pareto(st["data"], st["ncol"], st["orientation"], st.get("rep", "C"))
+        if op == "boxplot_stats":
+            return do_boxfn(st["column"], st["box"], st["whiskers"], st.get("rep", "ndarray"), st.get("seed", 0))
+        if op == "Boxplot":
+            return do_box(st["columns"], st["box"], st["whiskers"], st.get("rep", "frame"), st.get("seed", 0))
+        if op == "Boxplot-by":
+            return do_boxby(st["by"], st["data"], st["box"], st["whiskers"], False, st.get("rep", "ndarray"),
+                            st.get("by_rep", "ndarray"), st.get("seed", 0))
+        if op == "Violin":
+            return do_violin(st["columns"], st.get("rep", "frame"), st.get("seed", 0))
+        raise ValueError(op)
+
+    def run_history(steps):
+        live = []       # [step, label, getter of the current value, snapshot when returned, object or None]
+        inputs = {}     # step -> objects passed in
+        try:
+            for k, st in enumerate(steps):
+                ambient.clear()
+                ambient.update(input_class="history: operations in one process, returned and passed objects kept",
+                               steps=steps[:k + 1])
+                op = st["op"]
+                if op == "overwrite-result":
+                    done = False
+                    for e in live:
+                        if e[0] == st["of"] and e[4] is not None:
+                            done = scribble(e[4]) or done
+                    live = [e for e in live if not (e[0] == st["of"] and e[4] is not None)]
+                    why = f"the caller overwrote the object returned by step {st['of']}"
+                    if not done:
+                        continue
+                elif op == "overwrite-input":
+                    if not any([scribble(o) for o in inputs.get(st["of"], [])]):
+                        continue
+                    why = f"the caller overwrote the arrays passed in step {st['of']}"
+                else:
+                    res = run_step(st)
+                    why = f"the later call {op} (step {k})"
+                # every answer still alive is what it was when returned
+                for e in list(live):
+                    try:
+                        now = snapshot(e[2]())
+                    except Exception as ex:      # noqa: BLE001
+                        now = ([flat_exc(ex)], np.zeros(0))
+                    if not same_snapshot(now, e[3]):
+                        live.remove(e)
+                        j = e[0]
+                        fail(None, f"C20/{steps[j]['op']}/returned-answer-changes-later",
+                             f"{e[1]} of step {j} ({steps[j]['op']}) changed after {why}: was "
+                             f"{e[3][1].ravel()[:6].tolist()}, is {now[1].ravel()[:6].tolist()}",
+                             {"call": "history"})
+                if op.startswith("overwrite") or res is None:
+                    continue
+                inputs[k] = res.get("in", [])
+                for n_, o in enumerate(res.get("out", [])):
+                    if o is not None:
+                        live.append([k, f"result {n_}", (lambda o=o: o), snapshot(o), o])
+                if res.get("reread"):
+                    rr = res["reread"]
+                    for n_, o in enumerate(rr()):
+                        live.append([k, f"summary {n_} of the object", (lambda rr=rr, n_=n_: rr()[n_]), snapshot(o),
+                                     None])
+                ctx.count(("history", op, len(live) > 3))
+        finally:
+            ambient.clear()
+
+    SMALL = [0.0, 1.0, 2.0, 3.0, 5.0, -1.0, 2.5]
+
+    def gen_step():
+        op = rng.choice(["ppos", "ppos", "standard_normal", "standard_normal", "lhs", "pareto_front", "pareto_front",
+                         "boxplot_stats", "Boxplot", "Boxplot-by", "Violin"])
+        box, wh = rng.choice([(50.0, 90.0), (50.0, 90.0), (60.0, 95.0)])
+        if op == "ppos":         # few sizes and constants: the same arguments come again
+            return {"op": op, "nval": rng.choice([1, 2, 3, 5]), "cst": rng.choice([0.0, 0.3, 0.5])}
+        if op == "standard_normal":
+            n = rng.choice([1, 3, 5, 6])
+            srt = rng.random() < 0.3
+            x = [rng.choice(SMALL) if rng.random() < 0.5 else round(rng.gauss(0, 2), 2) for _ in range(n)]
+            return {"op": op, "x": sorted(x) if srt else x, "cst": rng.choice([0.0, 0.375]), "sorted": srt,
+                    "rep": rng.choice(["ndarray", "ndarray", "list", "series:shuffled", "series:dates"]),
+                    "seed": rng.randrange(100)}
+        if op == "lhs":
+            npar = rng.choice([1, 2])
+            return {"op": op, "nsamples": rng.choice([1, 4, 5]), "pmin": [0.0, -1.0][:npar], "pmax": [1.0, 3.0][:npar]}
+        if op == "pareto_front":
+            ncol = rng.choice([1, 2, 2, 3])
+            n = rng.choice([2, 4, 4, 7])
+            return {"op": op, "data": [[float(rng.randint(0, 3)) for _ in range(ncol)] for _ in range(n)], "ncol": ncol,
+                    "orientation": rng.choice([1, -1]), "rep": rng.choice(["C", "C", "F", "row-strided"])}
+        if op == "boxplot_stats":
+            n = rng.choice([3, 5, 8])
+            return {"op": op, "column": add_nonfinite(rng, [rng.choice(SMALL) for _ in range(n)]), "box": box,
+                    "whiskers": wh, "rep": rng.choice(["ndarray", "series:dates", "series:shuffled"]),
+                    "seed": rng.randrange(100)}
+        if op in ("Boxplot", "Violin"):     # frames of one shape, the same column names: objects that look alike
+            n = rng.choice([5, 5, 8])
+            cols = {}
+            for name in ["a", "b"][:rng.choice([1, 2])]:
+                cols[name] = add_nonfinite(rng, [round(rng.gauss(0, 3), 1) for _ in range(n)])
+                if op == "Violin":
+                    fin = [z for z in cols[name] if isfin(z)]
+                    if len(set(fin)) > 1 and (max(fin) - min(fin)) < 1e-2 * scale_of(fin):
+                        cols[name] = [float(i) for i in range(n)]
+            st = {"op": op, "columns": cols, "rep": rng.choice(["frame", "frame", "ndarray-C", "frame:dates"]),
+                  "seed": rng.randrange(100)}
+            if op == "Boxplot":
+                st.update(box=box, whiskers=wh)
+            return st
+        by = [rng.choice([1, 2]) for _ in range(rng.choice([6, 9]))]
+        by[0], by[1] = 1, 2
+        return {"op": op, "by": by, "data": add_nonfinite(rng, [round(rng.gauss(0, 3), 1) for _ in by]), "box": box,
+                "whiskers": wh, "rep": rng.choice(["ndarray", "series:dates"]), "by_rep": "series",
+                "seed": rng.randrange(100)}
+
+    if replay_is("history"):
+        run_history(rp["steps"])
+    for it in range(ctx.scale(45, 300)):
+        steps = []
+        for _ in range(rng.randint(4, 10)):
+            steps.append(gen_step())
+            k = len(steps) - 1
+            r = rng.random()
+            if r < 0.3:             # the caller overwrites what he got, then (often) asks again
+                steps.append({"op": "overwrite-result", "of": k})
+                if rng.random() < 0.7:
+                    steps.append(dict(steps[k]))
+            elif r < 0.45:
+                steps.append({"op": "overwrite-input", "of": k})
+            elif r < 0.6 and k > 0:  # ... or overwrites something returned earlier
+                j = rng.randrange(k)
+                if not steps[j]["op"].startswith("overwrite"):
+                    steps.append({"op": "overwrite-result", "of": j})
+        model_too[0] = it % 3 == 0      # every third history also as cases of the model
+        run_history(steps)
+    model_too[0] = True
+
     # ------------------------------------------------------------------ Coq
-    bad, nshards, failed = cm.run_case_files(PID, HEADER, "scase", "s_ok", terms, shard=250, max_bytes=350000)
-    ctx.notes["correspondence_cases"] = len(terms)
+    sel = [i for i, t in enumerate(terms) if t is not None]
+    bad, nshards, failed = cm.run_case_files(PID, HEADER, "scase", "s_ok", [terms[i] for i in sel], shard=250,
+                                             max_bytes=350000)
+    bad = [sel[b] for b in bad]
+    ctx.notes["correspondence_cases"] = len(sel)
+    ctx.notes["oracle_only_cases"] = len(terms) - len(sel)
     ctx.notes["correspondence_mismatches"] = len(bad)
     for k in range(nshards):
         ctx.obligation(f"Cases_{PID}_{k}.agree (model = implementation on the shard)", True)
